@@ -586,3 +586,23 @@ class ListSub(list):
   def marker(self):
     return 'ListSub'
 
+
+class CfgError(Exception):
+  """A user-defined exception class used as an ordinary configurable callable."""
+
+  def __init__(self, x=None, y=None, child=None):
+    super().__init__(x)
+    self.__vrec__ = record('CfgError', {'x': x, 'y': y, 'child': child})
+
+
+def kwnames(x=None, _from=None, _in=None, child=None):
+  """Parameter names that become Python keywords when their underscores are stripped."""
+  return record('kwnames', {'x': x, '_from': _from, '_in': _in, 'child': child})
+
+
+class Lambda(_VObj):
+  """A class whose snake-cased name is a Python keyword."""
+
+  def __init__(self, x=None, y=None):
+    self.__vrec__ = record('Lambda', {'x': x, 'y': y})
+
